@@ -1,4 +1,5 @@
 import HappyProofs.C05.Equiv
+import HappyProofs.C05.Idle
 import HappyModel.C05.Driver
 /-!
 # C05 — property theorems
